@@ -828,6 +828,11 @@ func c06(c *hx.Ctx) {
 	for _, h := range fixed {
 		runHist(c, u0, h, true)
 	}
+	// the quic transport's own address table: replacement of a link by a newer
+	// one at the same remote address (same peer / another peer)
+	usurpCase(c, 1, 1)
+	usurpCase(c, 1, 2)
+	usurpCase(c, 3, 2)
 	n := c.N
 	if c.Tier == "thorough" {
 		// every history up to length 5 over three links (two share a uuid)
